@@ -15,6 +15,7 @@
 from .worker import Worker, WorkerType, WorkerTerminatedError
 
 import os
+import sys
 import queue
 import logging
 import threading
@@ -178,16 +179,26 @@ class ProcessWorker(Worker):
         self._comms.parent_end.close()
         #self._ctrl_comms.parent_end.close()
 
+        outcome_sent = False
         try:
             #assert self.is_child
             self._comms.child_end.put((self._pid, self._tid, self._ident))
             self._init_child()
             result = self.do_work()
             self._comms.child_end.put(((True, result), self._user_state))
+            outcome_sent = True
         except Exception as e:
-            logger.exception('Exception occurred while running the main function')
             self._comms.child_end.put(((False, e), self._user_state))
+            outcome_sent = True
+            logger.exception('Exception occurred while running the main function')
         finally:
+            if not outcome_sent:
+                # neither a result nor an error has been reported: the code above has been interrupted by a termination
+                # request (e.g., while handling another error) or left with something which is not an Exception
+                try:
+                    self._comms.child_end.put(((False, sys.exc_info()[1]), self._user_state))
+                except Exception:
+                    pass
             self._cleanup()
             if self._ctrl_thread.is_alive() and not self._terminate_req:
                 self._ctrl_comms.parent_end.send(None)
